@@ -761,16 +761,20 @@ class Parser:
         """A replacement field; with the `=` specifier the source text of the expression becomes a literal part."""
         # a colon at the level of the field starts the format spec, so a lambda must be inside brackets of the field: when
         # the spec is made of nested fields only ('{lambda x:{1}}', '{1,lambda y:{y}}') its tokens read like a lambda body
-        for node in ast.walk(value):
-            if isinstance(node, ast.Lambda):
-                first, last = (locs["lineno"], locs["col_offset"] + 1), (node.lineno, node.col_offset)
-                depth = 0
-                tokens = self._tokenizer._tokens  # (in source order: only those of the field are looked at)
-                for tok in tokens[bisect.bisect_left(tokens, first, key=_token_start) : bisect.bisect_left(tokens, last, key=_token_start)]:
-                    if tok.type == Token.OP:
-                        depth += (tok.string[-1] in "([{") - (tok.string in ")]}")
-                if depth == 0:
-                    self.raise_syntax_error_known_location("f-string: lambda expressions are not allowed without parentheses", node)
+        lambdas = sorted(((n.lineno, n.col_offset), i, n) for i, n in enumerate(ast.walk(value)) if isinstance(n, ast.Lambda))
+        if lambdas:
+            tokens = self._tokenizer._tokens  # (in source order: the tokens of the field are walked once, whatever it holds)
+            depth, k = 0, 0
+            for tok in tokens[bisect.bisect_left(tokens, (locs["lineno"], locs["col_offset"] + 1), key=_token_start) :]:
+                while k < len(lambdas) and tok.start >= lambdas[k][0]:
+                    if depth == 0:
+                        message = "f-string: lambda expressions are not allowed without parentheses"
+                        self.raise_syntax_error_known_location(message, lambdas[k][2])
+                    k += 1
+                if k == len(lambdas):
+                    break
+                if tok.type == Token.OP:
+                    depth += (tok.string[-1] in "([{") - (tok.string in ")]}")
         if conversion is None:
             conversion = b"r"[0] if debug and format_spec is None else -1
         node = ast.FormattedValue(value=value, conversion=conversion, format_spec=format_spec, **locs)
